@@ -1,5 +1,6 @@
 import XalanModel.Generated.C02_Recycle
 import XalanModel.Generated.C02_NodeSetBuilders
+import XalanModel.Generated.C02_ParentWalks
 import XalanModel.C02.CompileProofs
 import XalanModel.C02.CompileWhole
 import XalanModel.C02.CompareProofs
@@ -284,6 +285,21 @@ re-sort (`count`, `string`, `name`, the delivered list itself). -/
 theorem nodeset_builders_ordered :
     (∀ e ∈ nodeSetBuilders, e.plainAppends ≤ allowedPlainAppends e.file) ∧
     (∃ e ∈ nodeSetBuilders, e.file = "XPath/FunctionID.cpp" ∧ e.plainAppends = 0 ∧ 1 ≤ e.orderedInserts) := by
+  decide
+
+/-! ## Upward walks use the XPath parent
+
+The parent of an attribute or namespace node is its owner element (XPath §5.3, §5.4); the DOM accessor `getParentNode()` returns
+null for them.  The table is regenerated from the source by `translate/c02_parent_walks.py`. -/
+
+/-- **Parent walks**: in the code the preprocessor keeps, no file of the function library (`XPath/Function*.cpp`,
+`XalanEXSLT/`, `XalanExtensions/`) calls the DOM accessor `getParentNode()`; `XPath.cpp` keeps at most the one audited call
+(`findNamespace`, which starts at an element context and only steps from element to element); `lang()` walks with
+`DOMServices::getParentOfNode`.  Context nodes that can reach these walks: element, attribute, text, comment, processing
+instruction, namespace node, root (any node may be the context node of `lang()` etc.). -/
+theorem parent_walks_use_xpath_parent :
+    (∀ e ∈ parentWalks, e.domParentCalls ≤ (if e.file = "XPath/XPath.cpp" then 1 else 0)) ∧
+    (∃ e ∈ parentWalks, e.file = "XPath/FunctionLang.cpp" ∧ 1 ≤ e.xpathParentCalls) := by
   decide
 
 end XalanModel.Props.C02
